@@ -16,6 +16,7 @@ pub struct GCtx {
     pub alphabet: Vec<char>,
     pub has_memo: bool,
     pub has_leftrec: bool,
+    pub rec_alts_first: bool,
     pub mixed_ws: bool,
     pub ghash: u64,
     pub types_hash: String,
@@ -30,6 +31,7 @@ impl GCtx {
         let has_leftrec = model.normals().any(|n| n.leftrec());
         let skipping = model.normals().filter(|n| !n.name.starts_with("W_")).any(|n| !n.no_skip_ws());
         let nonskipping = model.normals().filter(|n| !n.name.starts_with("W_")).any(|n| n.no_skip_ws());
+        let rec_alts_first = verif_core::model::recursive_alternatives_first(&model);
         Ok(GCtx {
             id: id.to_string(),
             text: text.to_string(),
@@ -40,6 +42,7 @@ impl GCtx {
             spec: spec.clone(),
             has_memo,
             has_leftrec,
+            rec_alts_first,
             mixed_ws: skipping && nonskipping,
             types_hash: String::new(),
             types_text: String::new(),
@@ -285,7 +288,9 @@ fn check_error(g: &GCtx, input: &str, plain: &Obs, o: &Outcome) -> Result<(), Fa
     }
     let spec = plain.err_spec.as_str();
     if spec == "LeftRecursionSentinel" {
-        if g.spec.flags.sentinel_allowed {
+        // the clause applies to grammars whose left-recursive rules list their recursive alternatives first: decided
+        // from the grammar itself (a shrunk grammar may have lost that shape), the generator's flag only widens it
+        if g.spec.flags.sentinel_allowed || !g.rec_alts_first {
             return Ok(());
         }
         return Err(fail("the internal left-recursion sentinel surfaced as the reported error", format!("one of {:?}", o.far), format!("pos={} {}", plain.err_pos, spec)));
